@@ -11,6 +11,7 @@ import Oracle.Tokenizer
 import Oracle.Driver
 import Oracle.FSem
 import Oracle.Sem
+import Oracle.Resolve
 import Oracle.Decl
 open Oracle
 
@@ -27,7 +28,9 @@ def handle (line : String) : String :=
     | "c01.prog" => toString (Oracle.FSem.handle payload)
     | "sem.prog" => toString (Oracle.SemStream.handle payload)
     | "sem.lower" => toString (Oracle.SemStream.handleLower payload)
+    | "c16.resolve" => toString (Oracle.ResolveStream.handle payload)
     | "c03.union" => toString (Oracle.Decl.handle payload)
+    | "c03.record" => toString (Oracle.Decl.handleRecord payload)
     | "c18.run" => toString (Oracle.SampleMd.handle payload)
     | "c15.type" => toString (Oracle.TypeExpr.handle payload)
     | "c09.match" => toString (Oracle.Exhaust.handle payload)
